@@ -248,15 +248,15 @@ Proof.
 Qed.
 
 (** ** YIELD *)
-Theorem sync_yield_core : forall d callee req opts args kw,
+Theorem sync_yield_core : forall lk d callee req opts args kw,
     calls_core d ->
-    calls_core (fst (sync_yield d callee req opts args kw)) /\
-    calls_sub d (fst (sync_yield d callee req opts args kw)).
+    calls_core (fst (sync_yield lk d callee req opts args kw)) /\
+    calls_sub d (fst (sync_yield lk d callee req opts args kw)).
 Proof.
-  intros d callee req opts args kw W.
+  intros lk d callee req opts args kw W.
   destruct (cget (d_invs d) (callee, req)) as [inv|] eqn:Hi.
   2:{ rewrite sync_yield_unknown by assumption. cbn [fst]. split; [exact W | apply calls_sub_refl]. }
-  rewrite (sync_yield_owner _ _ _ _ _ _ _ Hi). cbn [fst].
+  rewrite (sync_yield_owner _ _ _ _ _ _ _ _ Hi). cbn [fst]. unfold yield_result_state.
   destruct (opt_bool opts "progress"); [split; [exact W | apply calls_sub_refl]|].
   assert (W1 : calls_core (yield_state d (callee, req) inv)).
   { unfold yield_state. eapply core_untime; eauto. }
